@@ -36,7 +36,7 @@ def find_universe(hash_type, size=5):
     # replica keys are "<i>-<instance>": two servers sharing an instance name collide on every replica
     # (three servers share 'a': chains of three colliding entries p, p+1, p+2 owned by three nodes)
     return [('10.0.0.1', 2004, 'a'), ('10.0.0.2', 2004, 'a'), ('10.0.0.3', 2004, 'a'),
-            ('10.0.0.1', 2104, 'b'), ('10.0.0.2', 2104, 'b')][:size]
+            ('10.0.0.4', 2004, None), ('10.0.0.2', 2104, 'b')][:size]
   cands = [('10.0.0.%d' % (k // 3 + 1), 2004 + 100 * (k % 3), 'abc'[k % 3]) for k in range(15)]
   pos = {}
   for c in cands:
@@ -54,7 +54,10 @@ def find_universe(hash_type, size=5):
     rest = [c for c in cands if c not in chosen]
     nxt = max(rest, key=lambda c: (sum(len(pos[c] & pos[d]) for d in chosen), -cands.index(c)))
     chosen.append(nxt)
-  return sorted(chosen, key=cands.index)
+  chosen = sorted(chosen, key=cands.index)
+  # one destination written as host:port, i.e. without an instance label (its replica keys contain None)
+  chosen[min(3, len(chosen) - 1)] = ('10.0.0.9', 2004, None)
+  return chosen
 
 
 def collisions(universe, hash_type):
@@ -228,6 +231,33 @@ def _expand(arg):
       if not ok:
         bad.append(('disruption', '%s %r changed the preference order of position %d from %r to %r' % (
           op[0], d, p, a, b), {'hist': list(hist) + [op], 'position': p}))
+        break
+  # (d) a long-lived router: lookups, then two membership operations with no lookup in between, then lookups
+  # again - it must route exactly like a router freshly built from the same history (stale lookup caches)
+  if not full:
+    probe = positions[::5]
+    for k1 in range(len(universe)):
+      for k2 in range(len(universe)):
+        if k1 == k2:
+          continue
+        live1 = set(live)
+        op1 = ('remove', k1) if k1 in live1 else ('add', k1)
+        live1 ^= {k1}
+        op2 = ('remove', k2) if k2 in live1 else ('add', k2)
+        same = materialize(hash_type, universe, hist)
+        table_for(same, probe, keys)
+        for op, k in (op1, op2):
+          (same.addDestination if op == 'add' else same.removeDestination)(universe[k])
+        fresh = materialize(hash_type, universe, list(hist) + [op1, op2])
+        ta, tb = table_for(same, probe, keys), table_for(fresh, probe, keys)
+        n_checked += len(probe)
+        if ta != tb:
+          p = [pp for pp, x, y in zip(probe, ta, tb) if x != y][0]
+          bad.append(('long-lived-router', 'after lookups, %r, %r on one router object position %d routes to %r; a router built '
+                      'from the same history routes to %r' % (op1, op2, p, ta[probe.index(p)], tb[probe.index(p)]),
+                      {'hist': list(hist) + [op1, op2]}))
+          break
+      if bad and bad[-1][0] == 'long-lived-router':
         break
   return {'bad': bad[:4], 'succ': [(op, hash(e)) for op, e in succ], 'checked': n_checked, 'npos': len(positions)}
 
